@@ -835,7 +835,8 @@ class StubsStringGenerator:
             types = []
             for literal_type in type_data["literals"]:
                 if isinstance(literal_type, str):
-                    types.append(f'"{literal_type}"')
+                    escaped_literal = literal_type.replace("\\", "\\\\").replace('"', '\\"')
+                    types.append(f'"{escaped_literal}"')
                 elif isinstance(literal_type, bool):
                     if literal_type:
                         types.append("true")
